@@ -15,6 +15,7 @@
 //!   mach <k> <w> <L|R> <j|-> <u>                     (Bit Machine output, stale frame cells as padding)
 //!   machw <i>                                        (Bit Machine output of a witness node holding pool[i])
 //!   ctx8 <hex32> <count> <hex>                       (Value::ctx8(midstate, bytes_hashed, buffer))
+//!   encv <i> <pre>                                  (encode_value after <pre> bits, decoded back; extra number: bits written)
 //!   isty <i> <T>                                     (pool[i] again; extra number: is_of_type(T))
 //! types T in prefix notation without spaces: 1 unit, +ab sum, *ab product, w<hexdigit k> = 2^(2^k)
 use crate::util::*;
@@ -322,6 +323,28 @@ fn run_op(pool: &[Entry], t: &[&str]) -> (Entry, Vec<u128>) {
             match Value::ctx8(mid, t[2].parse().unwrap(), &unhex(t[3])) {
                 Ok(v) => (Ok(v), vec![]),
                 Err(_) => (Err(3), vec![]),
+            }
+        }
+        "encv" => {
+            // encode_value into a BitWriter after <pre> one-bits, read the written bits back and decode them at the value's type
+            let v = operand!(t[1]);
+            let pre: usize = t[2].parse().unwrap();
+            let mut bytes = Vec::new();
+            let mut w = simplicity::BitWriter::new(&mut bytes);
+            for _ in 0..pre {
+                w.write_bit(true).unwrap();
+            }
+            let n = simplicity::encode_value(&v, &mut w).unwrap();
+            w.flush_all().unwrap();
+            drop(w);
+            let mut it = BitIter::from(bytes.into_iter());
+            for _ in 0..pre {
+                it.next();
+            }
+            let ty = Arc::new(v.ty().clone());
+            match Value::from_compact_bits(&mut it, &ty) {
+                Ok(x) => (Ok(x), vec![n as u128]),
+                Err(_) => (Err(2), vec![]),
             }
         }
         "isty" => {
